@@ -5,7 +5,7 @@ from harness import common, gen, api
 from harness.common import fhex, flist, ftable, ftable2, cbool
 
 LEVEL = "proof"
-IMPORTS = ["From MuxV Require Import Base.Num Base.Vec3 Base.FInst Model.Grid Model.GridF Model.QCurve Model.QCurveF Model.Reid Model.ReidF."]
+IMPORTS = ["From MuxV Require Import Base.Num Base.Vec3 Base.FInst Model.Grid Model.GridF Model.QCurve Model.QCurveF Model.Reid Model.ReidF Model.Gather Model.GatherF."]
 
 
 # ------------------------------------------------------------------ grid correspondence
@@ -208,6 +208,13 @@ def reid_cases(chk, a, cases, descr, rng):
             for k in range(seg.N):
                 info[cur + k] = dict(sig=float(sig[k]), reid=bool(seg.reid_corr), dj=float(seg.delta_joint))
             cur += seg.N
+    # span coordinate from the left tip, wing by wing (Model/Gather.v)
+    for wi in range(a._num_wings):
+        ws = a.wing_slices[wi]
+        segs = "[" + "; ".join("mk_segsp %s %s %s %s" % (cbool(seg.side == "left"), fhex(seg.b), flist(seg.node_span_locs), flist(seg.cp_span_locs))
+                               for seg in a._segments_in_wings[wi]) + "]"
+        cases.append("chk_wing_spans %s %s %s %s" % (segs, flist(a.PC_span_locs[ws]), flist(a.P0_span_locs[ws]), flist(a.P1_span_locs[ws])))
+        descr.append(dict(what="span-coordinates", wing=wi, segments=[seg.name for seg in a._segments_in_wings[wi]]))
     scale = max(1.0, float(np.max(np.abs(a.P0))), float(np.max(np.abs(a.P1))))
     atol = 1e-9 * scale
     for wi in range(a._num_wings):
